@@ -41,6 +41,7 @@ def plan(tier, seed):
     specs += [{"kind": "superpose", "start": p * (k // NSHARDS), "count": k // NSHARDS} for p in range(NSHARDS)]
     big = 1 if tier == "quick" else 30
     specs += [{"kind": "large", "start": p * big, "count": big} for p in range(4 if tier == "quick" else 16)]
+    specs += [{"kind": "huge", "start": 2 * p, "count": 2} for p in range(2 if tier == "quick" else 8)]
     return specs
 
 
@@ -62,7 +63,7 @@ def amplification(case, fi, ri, yvals, yrvals):
 def run_random_case(ctx, kind, idx):
     from traffic_weaver.match import integral_matching_reference_stretch
     rng = ctx.rng(kind, idx)
-    case = M.gen_case(rng, max_m=400, weaver=bool(rng.integers(0, 9) == 0), large=kind == "large")
+    case = M.gen_case(rng, max_m=400, weaver=bool(rng.integers(0, 9) == 0), large=kind == "large", huge=kind == "huge")
     if kind == "large":
         ctx.count("large:len(x)*len(x_ref)>2**20" if len(case["x"]) * len(case["x_ref"]) > 2 ** 20 else "large:below_2**20")
     if case["alpha"] == 1.0 and rng.integers(0, 10) < 6:
